@@ -326,6 +326,32 @@ func c03History(r *vu.RNG, steps int, unfrozen bool) string {
 			}
 			delete(h.kv, string(k))
 			toks = append(toks, "d"+vu.X(uint64(i))+":"+vu.Hex(k))
+		case x < 57 && x >= 52: // clear prefix with a limit
+			var p []byte
+			if r.Chance(1, 4) {
+				p = []byte{}
+			} else {
+				n := 1 + r.Intn(2)
+				p = make([]byte, n)
+				for q := range p {
+					p[q] = c03KeyBytes[r.Intn(len(c03KeyBytes))]
+				}
+				p[n-1] = c03PrefixBytes[r.Intn(len(c03PrefixBytes))]
+			}
+			limit := []int{0, 1, 1, 2, 3, 100}[r.Intn(6)]
+			var ks []string
+			for k := range h.kv {
+				if strings.HasPrefix(k, string(p)) {
+					ks = append(ks, k)
+				}
+			}
+			sort.Strings(ks)
+			for q, k := range ks {
+				if q < limit {
+					delete(h.kv, k)
+				}
+			}
+			toks = append(toks, "l"+vu.X(uint64(i))+":"+vu.Hex(p)+":"+vu.X(uint64(limit)))
 		case x < 52: // clear prefix
 			var p []byte
 			switch r.Intn(4) {
